@@ -227,6 +227,8 @@ def build_md(case, prefix):
     kw = dict(steps=int(case["steps"]), reuse_P=bool(case.get("reuse_P", True)), seed=int(case.get("seed", 7)))
     if case.get("remove_com") is not None:
         kw["remove_com"] = tuple(case["remove_com"])
+    for k, v in (case.get("run_kwargs") or {}).items():
+        kw[k] = tuple(v) if isinstance(v, list) else v
     return md, mol, kw
 
 
